@@ -12,7 +12,6 @@ import (
 )
 
 type (
-	WaitGroup = sync.WaitGroup
 	Once      = sync.Once
 	Pool      = sync.Pool
 	Map       = sync.Map
@@ -160,3 +159,48 @@ type rlocker RWMutex
 
 func (r *rlocker) Lock()   { (*RWMutex)(r).RLock() }
 func (r *rlocker) Unlock() { (*RWMutex)(r).RUnlock() }
+
+// WaitGroup: Wait blocks under the controlled scheduler until the counter is
+// zero; Add / Done are plain bookkeeping there (only one thread runs at a time).
+type WaitGroup struct {
+	real sync.WaitGroup
+	n    int
+}
+
+func (w *WaitGroup) Add(delta int) {
+	s := vsched.Cur()
+	if s == nil {
+		w.real.Add(delta)
+		return
+	}
+	w.n += delta
+	if w.n < 0 {
+		panic("sync: negative WaitGroup counter")
+	}
+	if w.n == 0 {
+		s.Unblock(w)
+	}
+}
+
+func (w *WaitGroup) Done() { w.Add(-1) }
+
+func (w *WaitGroup) Wait() {
+	s := vsched.Cur()
+	if s == nil {
+		w.real.Wait()
+		return
+	}
+	s.Yield("Wait")
+	for w.n > 0 {
+		s.Block(w, "Wait(blocked)")
+	}
+}
+
+// Go mirrors sync.WaitGroup.Go (Go 1.25).
+func (w *WaitGroup) Go(f func()) {
+	w.Add(1)
+	vsched.Go(func() {
+		defer w.Done()
+		f()
+	})
+}
